@@ -6,6 +6,7 @@ import (
 	"sort"
 	"strconv"
 	"strings"
+	"sync"
 
 	"github.com/MichaelMure/git-bug/entities/bug"
 	"github.com/MichaelMure/git-bug/entity"
@@ -22,6 +23,9 @@ type SeqReq struct {
 	I    int      `json:"i"`
 	Add  []string `json:"add"`
 	Rem  []string `json:"rem"`
+	// Race: the (authenticated) request meets the same request sent without a user, at the same time, on a bug the server has
+	// not loaded yet (the cache was just reopened): the refused one must have no part in what happens to the other
+	Race bool `json:"race"`
 }
 
 type SeqSched struct {
@@ -51,6 +55,8 @@ type SeqEvent struct {
 	Stored     BugProj  `json:"stored"`
 	ByUser     bool     `json:"byuser"`
 	Changed    bool     `json:"changed"`
+	Race       bool     `json:"race"`
+	AnonOK     bool     `json:"anonok"` // Race: the request without a user was refused and returned nothing
 }
 
 func token(s, prefix string) int {
@@ -187,12 +193,33 @@ func SeqCmd(args []string) {
 				hx.Die("unknown request %q", r.Name)
 			}
 			q := fmt.Sprintf("mutation($i:%s!){%s(input:$i){%s}}", typ, field, seqSel)
+			if r.Race && r.Auth {
+				w.reopen()
+			}
 			before := w.snapshot()
 			h := w.noAuth
 			if r.Auth {
 				h = w.withAu
 			}
-			resp, _ := w.gql(h, q, map[string]interface{}{"i": in})
+			var resp gqlResp
+			if r.Race && r.Auth {
+				ev.Race = true
+				if before2 := w.snapshot(); !before.equal(before2) {
+					hx.Die("two looks at the same state differ")
+				}
+				w.reopen() // the looks loaded the bugs: once more, so that the two requests find nothing loaded
+				var anon gqlResp
+				start := make(chan struct{})
+				var wg sync.WaitGroup
+				wg.Add(2)
+				go func() { defer wg.Done(); <-start; anon, _ = w.gql(w.noAuth, q, map[string]interface{}{"i": in}) }()
+				go func() { defer wg.Done(); <-start; resp, _ = w.gql(w.withAu, q, map[string]interface{}{"i": in}) }()
+				close(start)
+				wg.Wait()
+				ev.AnonOK = len(anon.Errors) > 0 && anon.Data[field] == nil
+			} else {
+				resp, _ = w.gql(h, q, map[string]interface{}{"i": in})
+			}
 			after := w.snapshot()
 			ev.Refused = len(resp.Errors) > 0
 			if ev.Refused {
